@@ -272,6 +272,10 @@ class TaskCoordinator:
                                 pass
                     except KeyboardInterrupt:
                         logger.info('Terminating running tasks.')
+                        # The interrupt may have arrived before (or
+                        # during) the cancel above: make sure no
+                        # queued task is started from here on.
+                        runner.cancel()
                         runner.stop()
                         # Process completed tasks one last time after
                         # tasks have been killed.
